@@ -30,13 +30,19 @@ DropTrail(s, b) == IF s # <<>> /\ s[Len(s)] = b THEN DropTrail(SubSeq(s, 1, Len(
 Trim(s, b) == DropTrail(DropLead(s, b), b)
 LeadCount(s, b) == Len(s) - Len(DropLead(s, b))
 
-\* c = [t1, t2, ir1, ir2]; result: the findings <<clause, position>> (empty: the property holds for the case);
-\* positions refer to the untrimmed t1 / ir1
+\* c = [t1, t2, ir1, ir2, rb, gf]; result: the findings <<clause, position>> (empty: the property holds for the case);
+\* positions refer to the untrimmed t1 / ir1.
+\*   rb  "the written text t1 was read back by the frontend" -- without it there is no second pass at all (t2, ir2 are
+\*       then meaningless and not looked at): clause read-back
+\*   gf  "a Fortran compiler (gfortran -fsyntax-only) accepts the written text t1"; recorded only for self-contained
+\*       sources whose ORIGINAL text the compiler accepts (TRUE otherwise): clause written-text-compiles
 Findings(c) ==
   LET dt0 == FirstDiff(Trim(c.t1, ""), Trim(c.t2, ""))
       dt == IF dt0 = 0 THEN 0 ELSE dt0 + LeadCount(c.t1, "")
       di == FirstDiff(DropTrail(c.ir1, "BLANK"), DropTrail(c.ir2, "BLANK"))
-  IN (IF dt = 0 THEN <<>> ELSE <<<<"text-fixpoint", dt>>>>) \o (IF di = 0 THEN <<>> ELSE <<<<"ir-identical", di>>>>)
+  IN (IF c.gf THEN <<>> ELSE <<<<"written-text-compiles", 0>>>>) \o
+     (IF ~c.rb THEN <<<<"read-back", 0>>>>
+      ELSE (IF dt = 0 THEN <<>> ELSE <<<<"text-fixpoint", dt>>>>) \o (IF di = 0 THEN <<>> ELSE <<<<"ir-identical", di>>>>))
 
 (***************************************************************************)
 (* Design-level model (MC_RoundTrip): texts over a tiny alphabet of lines,  *)
